@@ -31,7 +31,7 @@ CANARIES = {'harness/C05_restore.py': 'stub_canary()'}   # harness file -> nativ
 
 def obligations(tier):
     w = "after run/call/evaluate returns or raises: sys.stdout, time.sleep, sys.modules keys as before; _current_patches == [] == _current_stdout"
-    obs = [Ob("C05.restore1", F, "restore1", 600, part="%d,%d" % (e, m), what=w + " (also when pedal's own feedback construction fails, the program closed its stdout, or tampered with sys.modules)") for e in range(3) for m in ((0, 1) if tier == "quick" and e else range(4))]
+    obs = [Ob("C05.restore1", F, "restore1", 600, part="%d,%d" % (e, m), what=w + " (also when pedal's own feedback construction fails, the program closed its stdout, or tampered with sys.modules)") for e in range(3) for m in (range(5) if tier != "quick" or e == 0 else ((0, 1) if e == 1 else (0, 4)))]
     for e in range(3):
         for st in range(4):
             obs.append(Ob("C05.restore_trace", F, "restore_trace", 200, part="%d,%d" % (e, st), what="sys.gettrace() after the call is what it was before: tracer style (partition) x termination x nested execution (evaluate / import of another student file) x host trace function present"))
